@@ -13,6 +13,8 @@ TECHNIQUE = {
  "C02": "path-sensitive exploration of the serve loop's SSA CFG over a finite abstraction (event bits + boolean/nil facts): must-close / must-check obligations per iteration",
  "C10": "backward condition slicing (interprocedural atoms of the close decision) + path-sensitive exploration of the serve loop",
  "C11": "field-coverage must-analysis of reset methods (forward dataflow, intersection at joins, callee summaries) + loop-carried staleness exploration of the serve loop",
+ "C12": "counter pairing by path-sensitive exploration with counters in the abstract state (deferred calls applied at exit, ownership hand-offs as rule events), control-dependence of admission on the limit comparison, must-pass rules on rejection paths",
+ "C13": "lockset must-analysis (guarded-by table), critical-section atomicity by reach-avoiding searches, path-sensitive per-iteration typestate of the worker loop",
  "C14": "typestate automaton over constant ConnState arguments explored on every path of the serve loop's SSA CFG",
  "C15": "path-sensitive exploration of the serve loop: ordering of idle-marker stores, handler dispatch and stop-flag loads",
  "C16": "path-sensitive exploration of the serve loop's timeout branch: value identity of the ctx written/released, stale-field reads after the swap",
